@@ -52,6 +52,11 @@ func Harness_C01_batch() {
 		case 0:
 			o.result = nondetToken("result")
 			assume(tokKind(o.result) != tkInvalid)
+		case 3: // a result json.Marshal refuses: a function value, or raw bytes that are not JSON
+			if nondetBool("invalid-raw-result") {
+				o.result = nondetToken("badresult")
+				assume(tokKind(o.result) == tkInvalid)
+			}
 		case 1:
 			o.code = Code(nondetInt32("code"))
 			o.err = &Error{Code: o.code, Message: "handler error"}
@@ -77,6 +82,9 @@ func Harness_C01_batch() {
 			case 0:
 				return o.result, nil
 			case 3:
+				if o.result != nil {
+					return o.result, nil // a RawMessage that is not valid JSON
+				}
 				return func() {}, nil
 			}
 			return nil, o.err
